@@ -60,12 +60,41 @@ impl Ref {
                     _ => format!("x'{hex}'"),
                 }
             }
-            Value::Bool(None)
-            | Value::Int(None)
-            | Value::BigInt(None)
-            | Value::String(None)
-            | Value::Double(None)
-            | Value::Bytes(None) => "NULL".into(),
+            // the absent value of any type is NULL
+            v if format!("{v:?}").ends_with("None)") => "NULL".into(),
+            // temporal values: the components read through the accessor APIs, spelled in ISO order
+            Value::ChronoDate(Some(v)) => {
+                use chrono::Datelike;
+                format!("'{:04}-{:02}-{:02}'", v.year(), v.month(), v.day())
+            }
+            Value::ChronoTime(Some(v)) => {
+                use chrono::Timelike;
+                format!("'{:02}:{:02}:{:02}'", v.hour(), v.minute(), v.second())
+            }
+            Value::ChronoDateTime(Some(v)) => format!("'{}'", chrono_naive(v)),
+            Value::ChronoDateTimeUtc(Some(v)) => format!("'{} +00:00'", chrono_naive(&v.naive_utc())),
+            Value::ChronoDateTimeLocal(Some(v)) => {
+                use chrono::Offset;
+                format!("'{} {}'", chrono_naive(&v.naive_local()), offset_text(v.offset().fix().local_minus_utc()))
+            }
+            Value::ChronoDateTimeWithTimeZone(Some(v)) => {
+                format!("'{} {}'", chrono_naive(&v.naive_local()), offset_text(v.offset().local_minus_utc()))
+            }
+            Value::TimeDate(Some(v)) => format!("'{:04}-{:02}-{:02}'", v.year(), v.month() as u8, v.day()),
+            Value::TimeTime(Some(v)) => format!("'{}'", time_time(v)),
+            Value::TimeDateTime(Some(v)) => format!("'{:04}-{:02}-{:02} {}'", v.year(), v.month() as u8, v.day(), time_time(&v.time())),
+            Value::TimeDateTimeWithTimeZone(Some(v)) => format!(
+                "'{:04}-{:02}-{:02} {} {}'",
+                v.year(),
+                v.month() as u8,
+                v.day(),
+                time_time(&v.time()),
+                offset_text(v.offset().whole_seconds())
+            ),
+            Value::Uuid(Some(u)) => {
+                let h = format!("{:032x}", u.as_u128());
+                format!("'{}-{}-{}-{}-{}'", &h[0..8], &h[8..12], &h[12..16], &h[16..20], &h[20..32])
+            }
             // a JSON document is written as the string literal of its serialised text
             Value::Json(Some(j)) => strlit(&j.to_string()),
             // other optional types: text-level only; their spelling is C03's business
@@ -83,6 +112,20 @@ impl Ref {
             self.lit(v)
         }
     }
+}
+
+fn chrono_naive(v: &chrono::NaiveDateTime) -> String {
+    use chrono::{Datelike, Timelike};
+    format!("{:04}-{:02}-{:02} {:02}:{:02}:{:02}", v.year(), v.month(), v.day(), v.hour(), v.minute(), v.second())
+}
+
+fn offset_text(seconds_east: i32) -> String {
+    let a = seconds_east.abs();
+    format!("{}{:02}:{:02}", if seconds_east < 0 { '-' } else { '+' }, a / 3600, a % 3600 / 60)
+}
+
+fn time_time(v: &time::Time) -> String {
+    format!("{:02}:{:02}:{:02}.{:06}", v.hour(), v.minute(), v.second(), v.microsecond())
 }
 
 pub fn func_name(d: Dialect, name: &str) -> String {
@@ -106,6 +149,7 @@ pub fn x(r: &mut Ref, e: &X) -> String {
         X::Null => "NULL".into(),
         X::Bool(v) => if *v { "TRUE" } else { "FALSE" }.into(),
         X::Star => "*".into(),
+        X::QStar(t) => format!("{}.*", r.id(t)),
         X::Cust(w) => w.clone(),
         X::Not(e) => format!("(NOT ({}))", x(r, e)),
         X::Bin(l, op, rr) => {
